@@ -15,7 +15,7 @@ def _site_names():
             if not tok:
                 continue
             name = tok.split("=")[0].strip()
-            names[i] = name.replace("MYTH_VS_", "").replace("MYTH_VP_", "P_").lower()
+            names[i] = name.replace("MYTH_VS_", "").replace("MYTH_VP_", "P_").replace("MYTH_VB_", "BUG_").lower()
             i += 1
         names[i + 1] = "fn_enter"   # flavour fn: function-granularity schedule points
         names[i + 2] = "fn_exit"
